@@ -1,6 +1,7 @@
 package main
 
 import (
+	"fmt"
 	"math/big"
 	"time"
 
@@ -28,6 +29,57 @@ type burnTracer struct {
 	ops       uint32 // bit set of executed action opcodes, see op* constants
 	steps     int
 	maxDepth  int
+
+	// frame gas accounting ("no gas is minted across a child frame"), see checkStep
+	curDepth  int
+	enterFrom []int // depth of the frame that entered each open child
+	last      [maxTrackDepth]stepRec
+	gasViol   string // first violation, "" if none
+	creates   int    // CREATE/CREATE2 steps checked
+	createGas uint64 // price of CREATE/CREATE2 in the schedule of the fork (0: 32000)
+}
+
+const maxTrackDepth = 16
+
+type stepRec struct {
+	valid     bool
+	op        kvm.OpCode
+	gas       uint64 // gas of the frame before the step
+	childUsed uint64 // gas consumed by the child frames this step entered (CaptureExit)
+	children  int
+}
+
+// checkStep: between two consecutive steps of the same frame the frame's gas may only fall, and
+//   - after CREATE / CREATE2 by at least the schedule's 32000 (charged twice under pre-Galaxias rules, A7) plus
+//     everything the init code consumed
+//     (the frame gets back at most what it handed over: returned <= forwarded);
+//   - after a CALL-type opcode by at least what the callee consumed minus the 2300 call stipend;
+//   - after any other opcode it simply must not rise.
+func (t *burnTracer) checkStep(depth int, gasNow uint64) {
+	if depth <= 0 || depth >= maxTrackDepth {
+		return
+	}
+	l := &t.last[depth]
+	if !l.valid || t.gasViol != "" {
+		return
+	}
+	var minDrop uint64
+	switch l.op {
+	case kvm.CREATE, kvm.CREATE2:
+		minDrop = 32000 + l.childUsed
+		if t.createGas != 0 {
+			minDrop = t.createGas + l.childUsed
+		}
+		t.creates++
+	case kvm.CALL, kvm.CALLCODE, kvm.DELEGATECALL, kvm.STATICCALL:
+		if l.childUsed > 2300 {
+			minDrop = l.childUsed - 2300
+		}
+	}
+	if gasNow > l.gas || l.gas-gasNow < minDrop {
+		t.gasViol = fmt.Sprintf("frame at depth %d held %d gas before %v and %d after it; its %d child frame(s) consumed %d: the frame must lose at least %d", depth, l.gas, l.op, gasNow,
+			l.children, l.childUsed, minDrop)
+	}
 }
 
 const (
@@ -41,6 +93,8 @@ const (
 	opSStore
 	opCallFailed   // some inner frame exited with an error
 	opCallReverted // ... specifically with REVERT
+	opCreate2
+	nOpBits = 11
 )
 
 func (t *burnTracer) CaptureStart(env *kvm.KVM, from common.Address, to common.Address, create bool, input []byte, gas uint64, value *big.Int) {
@@ -51,6 +105,14 @@ func (t *burnTracer) CaptureStart(env *kvm.KVM, from common.Address, to common.A
 
 func (t *burnTracer) CaptureState(pc uint64, op kvm.OpCode, gas, cost uint64, scope *kvm.ScopeContext, rData []byte, depth int, err error) {
 	t.steps++
+	t.checkStep(depth, gas)
+	if depth > 0 && depth < maxTrackDepth {
+		t.last[depth] = stepRec{valid: true, op: op, gas: gas}
+		if depth+1 < maxTrackDepth {
+			t.last[depth+1].valid = false
+		}
+	}
+	t.curDepth = depth
 	if depth > t.maxDepth {
 		t.maxDepth = depth
 	}
@@ -59,6 +121,8 @@ func (t *burnTracer) CaptureState(pc uint64, op kvm.OpCode, gas, cost uint64, sc
 		t.ops |= opCall
 	case kvm.CREATE:
 		t.ops |= opCreate
+	case kvm.CREATE2:
+		t.ops |= opCreate2
 	case kvm.REVERT:
 		t.ops |= opRevert
 	case kvm.STATICCALL:
@@ -76,6 +140,10 @@ func (t *burnTracer) CaptureFault(pc uint64, op kvm.OpCode, gas, cost uint64, sc
 }
 
 func (t *burnTracer) CaptureEnter(typ kvm.OpCode, from common.Address, to common.Address, input []byte, gas uint64, value *big.Int) {
+	t.enterFrom = append(t.enterFrom, t.curDepth)
+	if d := t.curDepth + 1; d > 0 && d < maxTrackDepth {
+		t.last[d].valid = false
+	}
 	if typ == kvm.SELFDESTRUCT {
 		if from == to {
 			t.ops |= opSDSelf
@@ -91,6 +159,15 @@ func (t *burnTracer) CaptureEnter(typ kvm.OpCode, from common.Address, to common
 }
 
 func (t *burnTracer) CaptureExit(output []byte, gasUsed uint64, err error) {
+	if n := len(t.enterFrom); n > 0 {
+		d := t.enterFrom[n-1]
+		t.enterFrom = t.enterFrom[:n-1]
+		t.curDepth = d
+		if d > 0 && d < maxTrackDepth && t.last[d].valid {
+			t.last[d].childUsed += gasUsed
+			t.last[d].children++
+		}
+	}
 	n := len(t.frames)
 	if n < 2 {
 		return
